@@ -126,9 +126,7 @@ def readMonitors (g : Ghost) (rd : String) (n : Nat) : Ghost × List (String × 
         fails := fails ++ [mon "read_len" s!"Read({n}) returned {b.length} bytes"]
       if e == "EOF" then
         if !(g.closed && out'.length == g.written.length) && !g.contractBroken then
-          let cls := if g.closed && g.reset && g.supports && g.boundarySet && out'.length < g.written.length
-                     then "fin_below_final_size_after_reset_at" else "-"
-          fails := fails ++ [("eof_only_at_end", cls, s!"EOF after {out'.length} bytes, closed={g.closed} written={g.written.length}")]
+          fails := fails ++ [mon "eof_only_at_end" s!"EOF after {out'.length} bytes, closed={g.closed} written={g.written.length}"]
         if finAt != some out'.length then
           fails := fails ++ [mon "eof_needs_fin" s!"EOF at {out'.length} but no FIN frame ending there was delivered"]
       else if e != "nil" then
@@ -374,9 +372,7 @@ def step (st : St) (op impl : String) : St × StepOut :=
           if !frameFaithful g.written off d then
             fails := fails ++ [mon "frame_faithful" s!"frame off={off} len={d.length} is not written[{off},{off + d.length}) (written {g.written.length} bytes)"]
           if fin && !(g.closed && off + d.length == g.written.length) then
-            let cls := if g.closed && g.reset && g.supports && g.boundarySet && off + d.length < g.written.length
-                       then "fin_below_final_size_after_reset_at" else "-"
-            fails := fails ++ [("fin_at_final_size", cls, s!"FIN on frame ending at {off + d.length}, closed={g.closed} written={g.written.length}")]
+            fails := fails ++ [mon "fin_at_final_size" s!"FIN on frame ending at {off + d.length}, closed={g.closed} written={g.written.length}"]
           if off > g.nextNew then
             fails := fails ++ [mon "new_data_contiguous" s!"frame at {off} but new data starts at {g.nextNew}"]
           if off < g.nextNew && off + d.length > g.nextNew then
